@@ -669,6 +669,12 @@ Lemma last_anc x (s m : nat) :
   last_opt (bidx (x / 2 ^ Z.of_nat s) (Z.of_nat s) :: dp_nodes_from x s m) = Some (bidx (x / 2 ^ Z.of_nat (s + m)) (Z.of_nat (s + m))).
 Proof. rewrite last_dp. destruct m; [rewrite Nat.add_0_r|]; reflexivity. Qed.
 
+Lemma last_direct x (hh : nat) : last_opt (bidx x 0 :: dp_nodes_from x 0 hh) = Some (bidx (x / 2 ^ Z.of_nat hh) (Z.of_nat hh)).
+Proof.
+  pose proof (last_anc x 0 hh) as Hl. change (2 ^ Z.of_nat 0) with 1 in Hl. rewrite Z.div_1_r in Hl.
+  change (Z.of_nat 0) with 0 in Hl. cbn [Nat.add] in Hl. exact Hl.
+Qed.
+
 Lemma in_dp_nodes_conv x : forall m s j, (s < j <= s + m)%nat -> In (bidx (x / 2 ^ Z.of_nat j) (Z.of_nat j)) (dp_nodes_from x s m).
 Proof.
   induction m as [|m IH]; intros s j Hj; [lia|]. cbn [dp_nodes_from].
@@ -899,8 +905,7 @@ Lemma peak_and_height :
   get_peak_index_and_height D (path ls i) i = Some (bidx (i / 2 ^ Z.of_nat h) (Z.of_nat h), Z.of_nat h).
 Proof.
   unfold get_peak_index_and_height. rewrite (get_direct_path_indices_spec D H dflt ls i Hi ltac:(lia)). cbn [obind].
-  pose proof (last_anc i 0 h) as Hl. change (2 ^ Z.of_nat 0) with 1 in Hl. rewrite Z.div_1_r in Hl.
-  change (Z.of_nat 0) with 0 in Hl. cbn [Nat.add] in Hl. rewrite Hl. cbn [obind].
+  rewrite (last_direct i h). cbn [obind].
   destruct (path_hgt D H dflt ls i Hi ltac:(lia)) as [Hp _]. rewrite Hp. unfold zlen, MmrPaths.bpath.
   rewrite bpath_from_length. reflexivity.
 Qed.
